@@ -179,7 +179,12 @@ macro_rules! per_n { ($($N:literal)*) => {
                     { let lg = &mut log; dasp_slice::map_in_place(&mut a[..], |fr| { lg.extend(fr.iter().map(|x| x.lab())); f(fr) }); }
                     expect_eq(&a, a0.iter().map(|&fr| f(fr)).collect()); false }
                 "zipmap" | "write" => {
-                    let b: Vec<[S; $N]> = bl.chunks($N).map(mkf::<S>).collect();
+                    // `b` is a prefix of a buffer at least as long as `a`: should the length check ever be
+                    // missing, the unchecked reads stay inside this allocation instead of crashing the harness
+                    let mut bfull: Vec<[S; $N]> = bl.chunks($N).map(mkf::<S>).collect();
+                    let lbf = bfull.len();
+                    while bfull.len() < a0.len() { bfull.push(mkf::<S>(&[])); }
+                    let b = &bfull[..lbf];
                     let f = |x: [S; $N], y: [S; $N]| { let mut o = x; for c in 0..$N { o[c] = S::mk(3 * x[c].lab() + y[c].lab()); } o };
                     let r = if name == "write" { guarded(|| dasp_slice::write(&mut a[..], &b[..])) } else {
                         let lg = &mut log; let ar = &mut a;
@@ -189,7 +194,10 @@ macro_rules! per_n { ($($N:literal)*) => {
                     }
                     r.is_none() }
                 "add" | "addamp" => {
-                    let b: Vec<[S::Signed; $N]> = bl.chunks($N).map(mkf::<S::Signed>).collect();
+                    let mut bfull: Vec<[S::Signed; $N]> = bl.chunks($N).map(mkf::<S::Signed>).collect();
+                    let lbf = bfull.len();
+                    while bfull.len() < a0.len() { bfull.push(mkf::<S::Signed>(&[])); }
+                    let b = &bfull[..lbf];
                     let am: [<S::Signed as Sample>::Float; $N] = mkf(amp);
                     let r = if name == "add" { guarded(|| dasp_slice::add_in_place(&mut a[..], &b[..])) }
                             else { guarded(|| dasp_slice::add_in_place_with_amp_per_channel(&mut a[..], &b[..], am)) };
